@@ -32,7 +32,7 @@ fn describe(ctx: &mut Ctx) {
         Prop::C13 => (format!("{vec_gen}Batched pipelines of 0-3 stages, transaction-heavy; fixed-parameter pipelines get an unbatched twin. Non-trivial = a source batch of >= 2 diffs reached an adapter, or a multi-diff commit happened in a case whose twin was compared."), vec![]),
         Prop::C14 => (format!("{vec_gen}All stream kinds, eager-heavy polling. Non-trivial = a limit change and a source operation both arrived while the stream was Pending (or, without dynamic stages, >= 4 polls)."), vec![]),
         Prop::C15 => (format!("{vec_gen}Static Head/Tail alone and in chains; the bound is checked after every single diff by the tap. Non-trivial = an inserting diff arrived while the bounded view was full."), vec![]),
-        Prop::C16 => (format!("{obs_gen}Flavour Both: the case runs on the sync and on the async-lock flavour and the transcripts must be identical. Plus async-only histories with guards held across calls (AsyncCase: acquire/release guards, writer/reader/subscriber tasks under a hand-rolled executor). Non-trivial = the history contains a close and >= 2 polls (differential) / a task queued behind a guard completed after release or a subscriber polled under a write guard became ready, or the owners were dropped while subscriber-side permits (read guards, granted lock requests) were outstanding (guards)."), vec!["the executor re-polls every woken task before anything is judged stuck"]),
+        Prop::C16 => (format!("{obs_gen}Flavour Both: the case runs on the sync and on the async-lock flavour and the transcripts must be identical. Plus async-only histories with guards held across calls (AsyncCase: acquire/release guards, writer/reader/subscriber tasks under a hand-rolled executor). Non-trivial = the history contains a close and >= 2 polls (differential) / a task queued behind a guard completed after release or a subscriber polled under a write guard became ready, or the owners were dropped while subscriber-side permits (read guards, granted lock requests) were outstanding (guards). The exact trigger of known finding K4 (a get/next_now/next_ref_now/read on a subscriber whose outstanding poll's lock request is queued in front of a pending writer) is skipped and counted (excluded_known)."), vec!["the executor re-polls every woken task before anything is judged stuck", "K4 (async subscriber: parked lock request + writer + second call on the same subscriber deadlock) is excluded exactly; see KNOWN_FINDINGS.txt"]),
         Prop::C17 => (format!("{vec_gen}With explicit out-of-range calls and traversals. Non-trivial = >= 1 out-of-range call and a traversal in which a removal is followed by a non-keep decision."), vec!["the library's bounds panics are recognised by their wording (they are #[track_caller])"]),
         Prop::C19 => (format!("{obs_gen}Handle-heavy histories, both flavours; all count functions compared after every call. Non-trivial = an into_shared or an upgrade, a subscriber clone and a dropped handle. Async: subscriber_count/strong_count equal to the K3 signature are accepted (excluded_known)."), vec!["K3: async-lock subscribers count twice"]),
         Prop::C20 => (format!("{vec_gen}{obs_gen}Every element/value is an instrumented instance (fresh serial per construction and clone; registry per case). Non-trivial = a multi-diff message consumed across polls, a subscriber dropped with a backlog or mid-message or inside a transaction, a lagged subscriber at drop (vector cases); into_shared with live subscribers or a subscriber clone (observable cases)."), vec![]),
@@ -432,6 +432,7 @@ fn obs_check(ctx: &mut Ctx) {
     if prop == Prop::C16 {
         let run = move |c: &crate::engine_async::AsyncCase| crate::engine_async::run(c, prop);
         ctx.regress_dir("regress", "async", &run);
+        ctx.known_findings("async", &run);
         let n = ctx.pick(150_000, 2_000_000);
         ctx.random("async-guards-held-across-calls", "async", &|| crate::engine_async::case(), &run, n);
     }
@@ -535,6 +536,28 @@ fn thr_phases(ctx: &mut Ctx) {
     let n = ctx.pick(6_000, 200_000);
     ctx.random("free-running", "thr", &|| engine_thr::case(false, 4, 6), &run_free, n);
     ctx.threads = saved;
+    if prop == Prop::C04 && !ctx.failed() {
+        // stress programs: one subscriber; thread 0 writes and polls its own subscriber after every
+        // write (the real-time rule: a write it has completed is unobserved at its next poll),
+        // thread 1 does nothing but clone and drop handles, so that the handle counts move under
+        // the writer's feet. Thousands of write/poll pairs per execution, 200 executions each.
+        use TOp::*;
+        let mk = |w: TOp| {
+            let mut t0 = vec![Subscribe];
+            for _ in 0..2500 {
+                t0.push(w.clone());
+                t0.push(Poll);
+            }
+            ThrCase { threads: vec![prog(1, &t0), prog(1, &vec![CloneChurn(7); 1500])], main_owner: true, schedule: None, late_subs: true, recorded: None }
+        };
+        let cases = vec![mk(Set), mk(Update(1)), mk(WriteSec(0))];
+        let reps = ctx.pick(200, 4_000) as u32;
+        let run_s = move |c: &ThrCase| engine_thr::run_reps(c, prop, reps);
+        let saved = ctx.threads;
+        ctx.threads = 1;
+        ctx.enumerated("stress:write-poll||handle-churn", "thr", cases.into_iter(), &run_s, None);
+        ctx.threads = saved;
+    }
 }
 
 fn c04(ctx: &mut Ctx) {
